@@ -42,6 +42,10 @@ impl FromStr for Sorter {
         let mut reader = from_string(&source);
         reader.eat_whitespace()?;
         let sort_by = read_getter(&mut reader)?;
+        reader.eat_whitespace()?;
+        if reader.peek()? == Some(b'=') {
+            reader.next()?;
+        }
         let direction = read_to_eof(&mut reader)?.to_uppercase();
         let direction = match direction.as_str() {
             "" | "ASC" => Direction::Asc,
@@ -57,9 +61,11 @@ impl FromStr for Sorter {
 
 fn read_to_eof<R: Read>(r: &mut Reader<R>) -> Result<String, SelectionParseError> {
     let mut chars = Vec::new();
+    let mut current = r.peek()?;
     loop {
-        if let Some(ch) = r.next()? {
-            chars.push(ch)
+        if let Some(ch) = current {
+            chars.push(ch);
+            current = r.next()?;
         } else {
             let str = String::from_utf8(chars)?;
             return Ok(str.trim().to_string());
